@@ -8,6 +8,8 @@ for d in sorted(glob.glob("/verif/seeded/*/")):
         continue
     m = json.load(open(mp))
     sid = os.path.basename(d.rstrip("/"))
+    if sid.startswith("refactor-"):
+        continue
     checks = m.get("checks", {})
     det = ", ".join("%s %s" % (p, "caught" + (" (no-failing-input-found)" if (c.get("replay") or {}).get("no_failing_input_found") else (" (stream %s)" % (c.get("replay") or {}).get("stream")) if c["detected"] else "") if c["detected"] else "MISSED") for p, c in checks.items())
     summ = re.sub(r"\s+", " ", str(m.get("summary", "")))[:230].replace("|", "/")
@@ -19,4 +21,21 @@ a, b = "<!-- SEEDED-BEGIN -->", "<!-- SEEDED-END -->"
 if a in s:
     s = s[:s.index(a) + len(a)] + "\n" + table + "\n" + s[s.index(b):]
 open(p, "w").write(s)
-print(len(rows), "rows")
+rr = []
+for d in sorted(glob.glob("/verif/seeded/refactor-*/")):
+    mp = os.path.join(d, "meta.json")
+    if not os.path.exists(mp):
+        continue
+    m = json.load(open(mp))
+    sid = os.path.basename(d.rstrip("/"))
+    summ = re.sub(r"\s+", " ", str(m.get("summary", "")))[:330].replace("|", "/")
+    suite = "; ".join(m.get("what_i_ran", {}).get("suite", []))
+    det = ", ".join("%s %s" % (p_, "ALARM" if c.get("alarm") else "quiet") for p_, c in m.get("checks", {}).items())
+    rr.append("| %s | %s | %s | %s |" % (sid, summ, suite, det))
+rt = "| refactoring | change (behaviour-preserving; argued by its author, suite re-run by me) | suite | quick checks run against it |\n|---|---|---|---|\n" + "\n".join(rr)
+a, b = "<!-- REFAC-BEGIN -->", "<!-- REFAC-END -->"
+s = open(p).read()
+if a in s:
+    s = s[:s.index(a) + len(a)] + "\n" + rt + "\n" + s[s.index(b):]
+    open(p, "w").write(s)
+print(len(rows), "rows;", len(rr), "refactorings")
